@@ -44,8 +44,11 @@ chk("C02", "exploration",
 chk("C03", "exploration",
     "Generated histories over graphs dense in redo-stamp targets with lossy projections; per executed checksummed "
     "target the stop / forward clauses are checked against the model; all 8 classes (changed x depth x in/out-of-band) "
-    "must be populated or the run is inconclusive.", H_NOTE,
-    "property-based testing: Hypothesis-generated histories, stop/forward relation vs reference model", "DESIGN.md §4 C03", "H")
+    "must be populated or the run is inconclusive. Rules may stamp conditionally and sources may revert to earlier "
+    "bytes. Parallel tier: a checksummed target held by the harness between its redo-stamp call and its exit while "
+    "sibling jobs check or build its dependents (serial/parallel differential).", H_NOTE,
+    "property-based testing: Hypothesis-generated histories, stop/forward relation vs reference model + schedule "
+    "fuzzing with serial/parallel differential", "DESIGN.md §4 C03, §10.5", "H+S")
 chk("C05", "exploration",
     "Generated histories with harness-controlled failing scripts, multi-target command lines, keep-going on/off; exit "
     "status class, nested redo-ifchange statuses, execution multiset (retry next run, nothing started after a known "
@@ -130,7 +133,9 @@ chk("C08", "exploration",
     "schedules: work-section overlap <= limit (+1 with log capture), no token-count error, FIONREAD accounting. 35% of "
     "the cases come from a directed lock-wait family (another invocation holds gated leaves; the measured one runs "
     "under the harness jobserver with 0-1 tokens and log capture and must wait for the locks one after the other; the "
-    "harness steals the parked token while redo blocks in F_SETLKW and returns it later) -- the cheat-token paths.", S_NOTE,
+    "harness steals the parked token while redo blocks in F_SETLKW and returns it later) -- the cheat-token paths. "
+    "A redo process may not exit while a script it started still sits at a gate (orphan oracle), except on "
+    "internal-error exits.", S_NOTE,
     "schedule fuzzing with harness-played jobserver, token-accounting invariants", "DESIGN.md §4 C08", "S")
 chk("C09", "exploration",
     "1-3 invocations, -j1..8, shuffle, inherited jobserver, duplicate spellings; which gated scripts finish together "
